@@ -13,7 +13,7 @@ from pyvc.interp import Raised, Coro, exc, SymPySet, TYPES
 from pyvc.loader import Module
 from pyvc.stmts import Interpreter, PyModule
 from pyvc.values import Rec, ClassRec, SV, USort
-from .common import A_LOG, PKG, logger_stub, run_catching
+from .common import A_LOG, PKG, logger_stub, run_catching, World
 
 PROPERTY = "C17"
 E_PY = f"{PKG}/eval.py"
@@ -28,6 +28,9 @@ ASSUMPTIONS = [
     "installed module of that name (ghost effect 'real_import')",
     "module names are arbitrary strings (z3 strings; cvc5 second opinion)",
     "hasattr(builtins, name) is an uninterpreted predicate of the name; the builtins named in BUILTIN_EXCLUDE exist",
+    "async_setup_entry (prefix up to State.set_pyscript_config, cut out mechanically): Function/Event/Mqtt/TrigTime/State/Webhook/"
+    "GlobalContextMgr/DecoratorRegistry .init, update_yaml_config and the executor jobs do not write hass.data[DOMAIN] (stubs); the "
+    "rest of async_setup_entry (service registration, listeners) is not under contract",
 ]
 NOT_DECIDED = ["which files module_import finds (C10/C11 territory)"]
 SHAPE_BOUNDS = {"names in one import statement": "<= 2", "names in one from-import": "<= 2 (+ the * form)"}
@@ -226,9 +229,19 @@ def h_builtin_exclusion(eng):
     mod.env.vars["builtins"] = Rec(name="builtins")
     mod.env.vars["BUILTIN_AST_FUNCS_FACTORY"] = {}
     f = ctx._fields
-    f["curr_func"] = None
-    f["sym_table"] = {}
-    f["global_sym_table"] = f["sym_table"]
+    # at module level, or inside a function that declares ARBITRARY sets of names global / local (every branch of the lookup)
+    if eng.choose(2, "inside-a-function"):
+        from pyvc.values import Store, TSet
+        from pyvc.interp import SymPySet
+        gn = Store(eng, "curr_func.global_names", TSet(StrS))
+        ln = Store(eng, "curr_func.local_names", TSet(StrS))
+        f["curr_func"] = Rec(fields={"global_names": gn.view(), "local_names": ln.view(), "nonlocal_names": SymPySet([])}, name="curr_func")
+        f["sym_table"] = {}
+        f["global_sym_table"] = {}
+    else:
+        f["curr_func"] = None
+        f["sym_table"] = {}
+        f["global_sym_table"] = f["sym_table"]
     # Function.install_ast_funcs puts pyscript's print/log functions into the local symbol table
     f["local_sym_table"] = {"print": logger_print}
     for x in excluded:
@@ -252,6 +265,57 @@ def h_builtin_exclusion(eng):
         # EvalName (undefined) : only for names that are neither builtins nor pyscript functions
         eng.oblige(f"{U}/post.undefined-only-if-not-an-allowed-builtin",
                    z3.Or(z3.Not(is_builtin(name)), ex, z3.SubString(name, 0, 1) == z3.StringVal("_")))
+
+
+I_PY = f"{PKG}/__init__.py"
+
+
+def h_setup_entry_prefix(eng):
+    """The import / builtin restrictions are read from hass.data[DOMAIN][CONFIG_ENTRY].data (AstEval.__init__, GlobalContext).
+    async_setup_entry - run for the first set-up, for every reload, and again when the integration is removed and configured
+    anew - must therefore install THE ENTRY IT IS GIVEN there, whatever an earlier set-up left behind.  The statements of
+    async_setup_entry up to State.set_pyscript_config(...) are cut mechanically out of the function and run on an arbitrary
+    earlier hass.data; everything they call is a no-effect stub (assumed)."""
+    import ast as _ast
+    from pyvc.interp import Env
+    from pyvc.loader import find_def, parse_file
+    it = Interpreter(eng)
+    w = World(eng)
+    tree, _ = parse_file(I_PY)
+    fn = find_def(tree, "async_setup_entry")
+    end = next((i for i, st in enumerate(fn.body) if "set_pyscript_config" in _ast.unparse(st)), None)
+    U = "C17/async_setup_entry#prefix"
+    eng.oblige(f"{U}/shape.slice-found", end is not None)
+    if end is None:
+        return
+    stmts = fn.body[:end + 1]
+    entry = Rec(fields={"data": {"allow_all_imports": bool(eng.choose(2, "new-allow"))}}, name="config_entry_given")
+    earlier = ["none", "same-process-earlier-entry", "domain-without-entry"][eng.choose(3, "earlier-set-up")]
+    old_entry = Rec(fields={"data": {"allow_all_imports": True}}, name="config_entry_earlier")
+    data = {}
+    if earlier == "same-process-earlier-entry":
+        data["pyscript"] = {"config_entry": old_entry, "unsub_listeners": [1]}
+    elif earlier == "domain-without-entry":
+        data["pyscript"] = {}
+    noop = lambda i, *a, **k: None
+    cls = lambda nm: Rec(fields={"init": noop, "register_functions": noop, "set_pyscript_config": lambda i, d: w.emit("set_pyscript_config", d),
+                                 "hass": (None if earlier == "none" else Rec(name="hass-earlier"))}, name=nm)
+    hass = Rec(fields={"data": data, "config": Rec(fields={"path": lambda i, *a: "/cfg/pyscript"}),
+                       "async_add_executor_job": lambda i, f, *a: Coro(lambda: bool(eng.choose(2, "folder-exists")), "executor")}, name="hass")
+    env = Env(vars={"hass": hass, "config_entry": entry, "Function": cls("Function"), "Event": cls("Event"), "Mqtt": cls("Mqtt"), "TrigTime": cls("TrigTime"),
+                    "State": cls("State"), "Webhook": cls("Webhook"), "GlobalContextMgr": cls("GlobalContextMgr"), "DecoratorRegistry": cls("DecoratorRegistry"),
+                    "update_yaml_config": lambda i, h, c: Coro(lambda: bool(eng.choose(2, "yaml-changed")), "update_yaml_config"),
+                    "os": PyModule("os", {"path": PyModule("os.path", {"isdir": "isdir"}), "makedirs": "makedirs"}),
+                    "_LOGGER": logger_stub(), "FOLDER": "pyscript", "DOMAIN": "pyscript", "CONFIG_ENTRY": "config_entry", "UNSUB_LISTENERS": "unsub_listeners"})
+    k, v = run_catching(it, lambda: it.exec_block(stmts, env))
+    eng.cover(f"ran:{k}:{earlier}")
+    eng.oblige(f"{U}/post.no-exception", k == "ok")
+    dom = data.get("pyscript")
+    ob = eng.oblige(f"{U}/post.the-entry-given-is-the-one-the-interpreter-will-consult", isinstance(dom, dict) and dom.get("config_entry") is entry)
+    if ob.status == "refuted":
+        ob.witness = {"signature": "stale-config-entry", "earlier": earlier}
+    ev = w.events("set_pyscript_config")
+    eng.oblige(f"{U}/post.state-configured-from-the-entry-given", len(ev) == 1 and ev[0][1] is entry._fields["data"])
 
 
 def h_eval_exec(eng):
@@ -294,6 +358,8 @@ def harnesses():
         hs.append(Harness(f"ast_import[{n}]", h_import(n), units=[(E_PY, "AstEval.ast_import")], replay=replay_import))
     for form in ("two", "as", "star"):
         hs.append(Harness(f"ast_importfrom[{form}]", h_importfrom(form), units=[(E_PY, "AstEval.ast_importfrom")], replay=replay_import))
-    hs.append(Harness("ast_name.builtin-exclusion", h_builtin_exclusion, units=[(E_PY, "AstEval.ast_name")]))
+    hs.append(Harness("ast_name.builtin-exclusion", h_builtin_exclusion, units=[(E_PY, "AstEval.ast_name")],
+                      replay=lambda wj: __import__("replay.native", fromlist=["run_native"]).run_native("c17_excluded_builtin", wj, timeout=300)))
+    hs.append(Harness("async_setup_entry.prefix", h_setup_entry_prefix, units=[(I_PY, "async_setup_entry")]))
     hs.append(Harness("eval_exec", h_eval_exec, units=[(E_PY, "ast_eval_exec_factory")]))
     return hs
